@@ -28,9 +28,9 @@ CLAIMED = {
     ),
     'C02': (
         "exhaustive enumeration (itertools.product) of the kind(value) x target type x embedding context matrix (12 contexts, incl. constructor and __replace__ calls that give several fields at once) against a hand-written kind-compatibility table",
-        "All cells of 39 value instances (13 kinds) x 52 target types x 12 contexts are evaluated on every run: a value whose kind the "
+        "All cells of 42 value instances (13 kinds) x 59 target types x 12 contexts are evaluated on every run: a value whose kind the "
         "target's family does not admit must raise ConvertError in every context; admitted cells are decided by the reference interpreter. "
-        "Exhaustive over this matrix, not over all values. Type variables met unsubstituted (bound to a class, a union, an Optional, a List; constrained) are among the targets. Suite equal-across-kinds: lists of values that are equal across kinds (1, 1.0, True) against set, list and tuple targets.",
+        "Exhaustive over this matrix, not over all values. Type variables met unsubstituted (bound to a class, a union, an Optional, a List; constrained) are among the targets. Suite equal-across-kinds: lists of values that are equal across kinds (1, 1.0, True) against set, list and tuple targets. Suite under-stock-handlers: the whole table in five contexts with custom={int:, float:, str:} holding the library's own converters for exactly those types (an entry serves its own type only).",
         "Trusts the kind table in pv/props/c02.py (taken from the statement and docs/index.md); bool -> number and ==-matching literal cells are unspecified.",
         "DESIGN.md section 5, C02",
     ),
@@ -39,7 +39,7 @@ CLAIMED = {
         "For every generated (type, value) and every (sub-type, sub-value) reached by walking the value, the fast pass raises "
         "ParseInterrupt iff the diagnostic pass returns an error tree, and convert() never raises the 'bug of the Converter' RuntimeError. "
         "A third suite feeds the condition grammar of C13 (conditions must see the converted value in both passes). "
-        "Suite extension-points: a union built with a refusing constructor by a _converter hook, and a default factory that raises; suite equal-across-kinds: both passes on lists of values equal across kinds. The evidence lists which converter classes were exercised and how often.",
+        "Suite extension-points: a union built with a refusing constructor by a _converter hook, and a default factory that raises; suite equal-across-kinds: both passes on lists of values equal across kinds. Extension points also hold two user sequence types (one whose constructor wants a length, one that validates). The evidence lists which converter classes were exercised and how often.",
         "No reference model needed; trusts only the walk of (sub-type, sub-value) pairs in pv/tg.py. User-written converter classes are out of scope.",
         "DESIGN.md section 5, C03",
     ),
@@ -48,7 +48,7 @@ CLAIMED = {
         "Every call either returns or raises ConvertError; any other exception is a violation keyed by (exception type, innermost pane frame); values include "
         "numpy arrays and instances of subclasses of interchange types, and YAML documents made of YAML's own scalar kinds (timestamps, sets, binary). "
         "18 unsupported type forms x 11 embedding wrappers are enumerated: make_converter and from_data must raise TypeError/UnsupportedAnnotation "
-        "identically for every value; every supported type of the grammar must build. Ill-formed tagged unions (a member without the tag, Optional of a tagged union), bare Annotated and PaneBase itself are among the unsupported forms. Suite raising-hooks: __post_init__, default factories and predicates raising nine kinds of exception on every data path.",
+        "identically for every value; every supported type of the grammar must build. Ill-formed tagged unions (a member without the tag, Optional of a tagged union), bare Annotated and PaneBase itself are among the unsupported forms. Suite raising-hooks: __post_init__, default factories and predicates raising nine kinds of exception on every data path, and a named-tuple subclass whose __new__ raises.",
         "Values are interchange data with ints under 1000 digits. Trusts the classification of type forms into supported/unsupported taken from docs/index.md.",
         "DESIGN.md section 5, C04",
     ),
@@ -57,7 +57,7 @@ CLAIMED = {
         "For every generated type and value built from it: into_data output is interchange-only (exact concrete types, bool stays bool), "
         "re-parsing it gives the same typed value (modulo excluded fields), re-serialising gives the same data (multiset at set positions), "
         "and the dataclass method agrees with the function; dataclass layout/rename/alias/out_name configurations are generated. "
-        "Recorded findings D9 and D73 are reported as KNOWN-FINDING. Suite handled-member: a third-party type served by a custom handler (from the class, its base or the call) round-trips in plain, Optional, Union and container fields.",
+        "Recorded findings D9 and D73 are reported as KNOWN-FINDING. Suite handled-member: a third-party type served by a custom handler (from the class, its base or the call) round-trips in plain, Optional, Union and container fields. Suite enum-contexts: one enum member read, written and re-read under three of four handler contexts in every order.",
         "Trusts pv/same.py equality and the reference's union-member trace used for the ambiguous-union exclusion; excluded cases are counted in the evidence.",
         "DESIGN.md section 5, C05",
     ),
@@ -75,7 +75,7 @@ CLAIMED = {
         "For every rejected generated (type, value): product nodes are keyed by exactly the positions/keys whose element is rejected on its own and "
         "each child equals that element's own tree; missing/extra equal the model's sets; unions report one alternative per built member in order, "
         "each equal to the member's own tree; tagged unions report the selected variant's tree; leaves record the offending sub-value. A second suite "
-        "resolves the unspecified python-name-as-key cell by observation: the tree must describe the same key-naming relation the fast path uses. Children of a homogeneous mapping are keyed by the key itself, whatever its kind. The tree of a failure equals (==) the tree of the same failure taken again, also with NaN or arrays in its leaves.",
+        "resolves the unspecified python-name-as-key cell by observation: the tree must describe the same key-naming relation the fast path uses. Children of a homogeneous mapping are keyed by the key itself, whatever its kind. The tree of a failure equals (==) the tree of the same failure taken again, also with NaN or arrays in its leaves. A tree which contains itself is reported before anything walks or prints it.",
         "Element trees come from pane itself (composition is what is checked; verdicts are C01's). Trusts pv/errtree.py tree equality and the class model's key tables.",
         "DESIGN.md section 5, C07",
     ),
@@ -84,7 +84,7 @@ CLAIMED = {
         "Every error tree reachable from the generator is rendered: rendering returns, is repeatable, a deep copy renders to the same lines, and the "
         "text contains every path component in nesting order followed by each leaf's expectation (a product node that only lacks fields or has unknown keys is a leaf), every missing/unexpected/duplicate name, the "
         "offending value of every leaf outside a sum (one per sum), and the message of every causing exception. Batches of failing conversions are also rendered "
-        "in fresh interpreters under two other PYTHONHASHSEED values and must give the same text. A union shows the value the union was given; suite huge-ints renders failures around ints of 4300 to 20001 digits; suite odd-names: missing, unexpected and duplicated field names that are not text.",
+        "in fresh interpreters under two other PYTHONHASHSEED values and must give the same text. A union shows the value the union was given; suite huge-ints renders failures around ints of 4300 to 20001 digits; suite odd-names: missing, unexpected and duplicated field names that are not text; suite duplicates-in-data: a field given under two names is named as a duplicate whatever the two values and the rest of the mapping are (decided from the data, not from the tree).",
         "Containment is substring-in-order, so wording/layout changes are not flagged.",
         "DESIGN.md section 5, C08",
     ),
@@ -93,7 +93,7 @@ CLAIMED = {
         "For every generated (type, value) of both verdicts, every dict/list in the value is a spy subclass recording mutator calls; a deep "
         "snapshot (types, contents, key order) before must equal the one after from_data, convert, Cls.from_data, keyword and positional "
         "construction, make_unchecked and from_dict_unchecked (defaulted fields left out), and into_data must leave the typed value unchanged; "
-        "suite inserting-maps gives every mapping as a defaultdict (lookup inserts) with entries taken away, against struct literals, Dict and dataclass targets; suite variant-converter: a tagged-union variant whose own converter hands out the mapping it holds must find it unchanged after into_data; suite derived-field: from_dict_unchecked and the other construction paths with a __post_init__ that fills in a field.",
+        "suite inserting-maps gives every mapping as a defaultdict (lookup inserts) with entries taken away, against struct literals, Dict and dataclass targets; suite variant-converter: a tagged-union variant whose own converter hands out the mapping it holds must find it unchanged after into_data; suite derived-field: from_dict_unchecked and the other construction paths with a __post_init__ that fills in a field; suite instances-in-data: a dataclass instance inside the data (frozen or not, fields assigned since or not) keeps identity, type and set-field record of every field over nine calls.",
         "A mutation through C-level dict/list APIs that bypass subclass methods is seen by the snapshot only.",
         "DESIGN.md section 5, C09",
     ),
@@ -102,7 +102,7 @@ CLAIMED = {
         "Histories of up to 50 (thorough 120) operations on short-lived type objects; every conversion outcome must equal the reference verdict for "
         "(spec, value) - also after the caller has modified every container of an earlier result -, the memoised converter must behave like one built past the cache, interleaved calls with different call-level handlers must "
         "each follow their own handlers, and KeyCache (unbounded and LRU maxsize 1-4) must always return f(args) and respect maxsize. "
-        "Histories are plain data and replay without Hypothesis. Union member order below another union / annotation, in constrained TypeVars and ValueOrList must not follow an equal type written earlier; suite register-after-use: a handler registered after a type was first converted is used from then on (from_data, constructor, __replace__); suite forward-reference: a named tuple converted before the class its slot refers to exists; suite tagged-union-reused: a memoised tagged-union converter recognises variant instances on every use.",
+        "Histories are plain data and replay without Hypothesis. Union member order below another union / annotation, in constrained TypeVars and ValueOrList must not follow an equal type written earlier; suite register-after-use: a handler registered after a type was first converted is used from then on (from_data, constructor, __replace__); suite forward-reference: a named tuple converted before the class its slot refers to exists; suite tagged-union-reused: a memoised tagged-union converter recognises variant instances on every use; suite refusal-text: text and tree of 20 refusals, each alone in a fresh interpreter against a fresh interpreter that ran other conversions of the table first.",
         "The harness does not own the thread schedule (stress only) nor the allocator (id-reuse events are measured and reported, not forced).",
         "DESIGN.md section 5, C10",
     ),
@@ -128,7 +128,7 @@ CLAIMED = {
         "predicates, shape/broadcastable) over scalar, sized, array and nested inner types, with values at, next to and away from every threshold: "
         "accept iff the inner type accepts and the independent evaluator holds; the value is returned unchanged; a raising predicate yields ConvertError "
         "with a cause; into_data ignores conditions. Pairs of expressions that read alike when flattened but nest differently sit in one type "
-        "(each position must enforce its own predicate); the stock conditions x combinators x boundary values table (real and complex values) and the shipped aliases are enumerated; suite custom-annotation places conditions before and after a ConvertAnnotation that is not a condition.",
+        "(each position must enforce its own predicate); the stock conditions x combinators x boundary values table (real and complex values) and the shipped aliases are enumerated; suite custom-annotation places conditions before and after a ConvertAnnotation that is not a condition; suite predicate-answers: answers that are not bools count by their truth, an answer without a truth value (several-element array, raising __bool__) is a failed condition with a cause.",
         "Trusts the evaluator in pv/tg.py (cond_eval, 6-line broadcasting rule) and Python comparison semantics.",
         "DESIGN.md section 5, C13",
     ),
@@ -161,7 +161,7 @@ CLAIMED = {
         "Hypothesis generation of class-hierarchy programs (grammar over levels, overrides, KW_ONLY, options, generic binding/forwarding/permutation/re-declaration); hierarchy model oracle on signature, parameters, field order, substituted-type enforcement, option inheritance",
         "Programs of depth 1-4 are executed with types.new_class; at every level __parameters__ and inspect.signature (names, kinds, annotations "
         "after normalisation, defaults) must equal the model, ill-formed programs must be refused with TypeError; the subscripted leaf must "
-        "enforce substituted field types (accept one instantiation's values, refuse another's) and inherit in_format, rename, allow_extra, kw_only, frozen and class-level custom handlers from the nearest definition.",
+        "enforce substituted field types (accept one instantiation's values, refuse another's) and inherit in_format, rename, allow_extra, kw_only, frozen and class-level custom handlers from the nearest definition. Suite union-fields: Union[int, str, T]-shaped fields whose argument repeats a member (five shapes x seven arguments, subscripted or inherited from) lose the variable, de-duplicate in order and enforce what is left. Suite literal-arguments: Literal arguments that are equal without being the same type (1 / True, 0 / False) give different parametrizations, in either order.",
         "Trusts the hierarchy model in pv/props/c17.py (substitution on a small type AST). Single-inheritance chains only.",
         "DESIGN.md section 5, C17",
     ),
@@ -186,7 +186,7 @@ CLAIMED = {
     'C20': (
         "exhaustive enumeration of a finite name set + Hypothesis search, against an independent canonical renderer",
         "Every 1-3 word name over a 3-letter alphabet (47 988 names) is swept exhaustively through all 5 styles and all 25 style "
-        "pairs, including injectivity per style; longer names, names over Latin-1 / Cyrillic / Greek letters with a one-to-one case mapping, ill-formed names and the dataclass-level observations are searched "
+        "pairs, including injectivity per style; longer names, names over Latin-1 / Cyrillic / Greek letters with a one-to-one case mapping, ill-formed names and the dataclass-level observations (fields with aliases= / in_names= among them) are searched "
         "with Hypothesis. Held-on-everything-explored, not a proof for all identifiers.",
         "Trusts the 3-line reference renderer in pv/props/c20.py and Python's str methods; letters whose case mapping is not one-to-one (sharp s, dotless i, Greek sigma) are outside the domain.",
         "DESIGN.md section 5, C20",
